@@ -9,7 +9,9 @@ natively.  Checked: exception class, .lineno, .pos (column of the construct; any
 for control lines), .filename, .source, agreement over string / file / lookup / module-directory
 construction, RichTraceback().lineno and the text error template.
 """
+import html
 import os
+import re
 import shutil
 import tempfile
 import textwrap
@@ -248,6 +250,18 @@ def run_fault(r, fault, nl, res):
                 txt = ex.text_error_template().render_unicode()
                 if ("line: %d" % line) not in txt:
                     res.violate("error-template-line", "%s: text error template does not show line %d: %r" % (what, line, txt[-300:]), replay_case=rc)
+                # the HTML error page displays the faulty template line itself (markup stripped, whitespace folded)
+                if pname != "string":
+                    continue  # (the page is costly to render; one of the four paths carries it)
+                page = ex.html_error_template().render_unicode()
+                page = re.sub(r"<style>.*?</style>", "", page, flags=re.S)
+                page = " ".join(html.unescape(re.sub(r"<[^>]+>", "", page)).split())
+                tlines = text.replace("\r\n", "\n").split("\n")
+                faulty = " ".join(tlines[line - 1].split()) if 0 < line <= len(tlines) else ""
+                if faulty:
+                    res.count("html_error_pages_checked")
+                    if faulty not in page:
+                        res.violate("html-error-page-line", "%s: the HTML error page does not display line %d (%r)" % (what, line, faulty), replay_case=rc)
             except Exception as e:
                 res.violate("non-mako-exception-" + fault["name"], "%s raised %s: %s" % (what, type(e).__name__, e), witness=fault["name"], replay_case=rc)
             else:
